@@ -92,16 +92,12 @@ def kernel_side(fam, addr, plen, port, port_mask, proto):
     """what one side (address/prefix, port/mask) + proto of a struct xfrm_selector matches, as a predicate
     over packets; returned as a function because port masks need not describe a range"""
     host = BITS[fam] - plen
-    net = addr >> host << host if host < BITS[fam] else 0
+    net = addr >> host
 
     def match(pkt):
         f, a, p, pr = pkt
-        if f != fam:
-            return False
-        if host < BITS[fam]:
-            if a >> host << host != net:
-                return False
-        return (p & port_mask) == (port & port_mask) and (proto == ANY or proto == pr)
+        return (f == fam and a >> host == net and (p & port_mask) == (port & port_mask)
+                and (proto == ANY or proto == pr))
     return match
 
 
